@@ -56,8 +56,8 @@ func runC15(c *Ctx) {
 		exNS, exUsers, exRC := []string{"exns"}, []string{"exuser"}, []string{"exrc"}
 		mk := func(rec metrics.Recorder) *admission.Admission {
 			adm := &admission.Admission{
-				Configuration:    &admissionapi.PodSecurityConfiguration{Defaults: defaults, Exemptions: admissionapi.PodSecurityExemptions{Namespaces: exNS, Usernames: exUsers, RuntimeClasses: exRC}},
-				Evaluator:        realEvaluator, Metrics: rec, PodSpecExtractor: admission.DefaultPodSpecExtractor{}, NamespaceGetter: namespaces, PodLister: pods}
+				Configuration: &admissionapi.PodSecurityConfiguration{Defaults: defaults, Exemptions: admissionapi.PodSecurityExemptions{Namespaces: exNS, Usernames: exUsers, RuntimeClasses: exRC}},
+				Evaluator:     realEvaluator, Metrics: rec, PodSpecExtractor: admission.DefaultPodSpecExtractor{}, NamespaceGetter: namespaces, PodLister: pods}
 			if err := adm.CompleteConfiguration(); err != nil {
 				panic(err)
 			}
